@@ -88,7 +88,7 @@ FORBIDDEN_METHODS = {
     'capacity', 'reserve', 'reserve_exact', 'try_reserve', 'try_reserve_exact', 'shrink_to_fit', 'shrink_to',
     'as_ptr', 'as_mut_ptr', 'as_ptr_range', 'as_mut_ptr_range', 'from_raw_parts', 'from_raw_parts_in',
     'into_raw_parts', 'set_len', 'leak', 'spare_capacity_mut', 'allocator', 'as_non_null', 'into_raw',
-    'from_raw', 'addr', 'expose_provenance',
+    'from_raw', 'addr', 'expose_provenance', 'as_slices', 'as_mut_slices',
 }
 ALLOWED_CRATES = {'num_traits', 'num'}
 
@@ -101,7 +101,7 @@ def callee_verdict(krate, name, resolved):
         last = n.split('::')[-1]
         if last in FORBIDDEN_METHODS and (n.startswith('std::vec') or n.startswith('std::collections') or
                                           n.startswith('slice') or n.startswith('std::string') or n.startswith('core::slice')):
-            return False, 'observes/changes allocation state that Clone does not preserve or that leaks (%s)' % n
+            return False, 'observes/changes allocation state or physical layout that Clone does not preserve, or leaks (%s)' % n
         for p in FORBIDDEN_PREFIXES:
             if n.startswith(p):
                 return False, 'impure or sharing callee (%s)' % n
